@@ -70,6 +70,13 @@ K05 = [
         "dstpkg/__init__.py": "",
         "main.py": "from srcpkg import gadget as {2}\nfrom srcpkg import sibling as {3}, gadget\nimport srcpkg.gadget\nprint({2}.spin(2), {3}.val, gadget.{0}, srcpkg.gadget.spin(1))\n"}),
      lambda files: dict(api="move_module", path="srcpkg/gadget.py", dest="dstpkg")),
+    # v02 without code left behind that uses the class: no import cycle (KF-C05-source-and-destination-import-each-other
+    # makes every partition of v02 fail, so v02 alone cannot tell a second defect about moved classes)
+    (Skeleton("v10_move_class_nothing_left_behind_uses_it", {
+        "src.py": "{0} = 2\nclass Mover:\n    {1} = {0}\n    def get(self, {2}):\n        return self.{1} + {2} + {0}\n",
+        "dest.py": "{3} = 5\n",
+        "main.py": "from src import Mover\nimport src\nimport dest\nprint(Mover().get(1), src.Mover().get(2), dest.{3})\n"}),
+     lambda files: dict(api="move_global", path="src.py", offset=files["src.py"].index("Mover"), dest="dest.py")),
 ]
 
 
